@@ -431,11 +431,15 @@ fn validate_challenge(ca: &Ca, ai: usize, ci: usize, thumb: &str) -> (bool, Valu
             match std::fs::read(&path) {
                 Ok(b) => {
                     let got = String::from_utf8_lossy(&b).to_string();
-                    let ok = got.trim_end_matches(|c: char| c == '\n' || c == '\r' || c == ' ' || c == '\t') == keyauth;
+                    let mut ok = got.trim_end_matches(|c: char| c == '\n' || c == '\r' || c == ' ' || c == '\t') == keyauth;
                     let mode = std::fs::metadata(&path).map(|m| {
                         use std::os::unix::fs::MetadataExt;
                         m.mode() & 0o7777
                     }).unwrap_or(0);
+                    // the web server that serves the file runs as another user: it must be readable by others
+                    if val.get("require_world_readable").and_then(|v| v.as_bool()).unwrap_or(false) && mode & 0o004 == 0 {
+                        ok = false;
+                    }
                     (ok, json!({"path": path, "found": got, "expected": keyauth, "mode": mode}))
                 }
                 Err(e) => (false, json!({"path": path, "err": e.to_string(), "expected": keyauth})),
@@ -449,12 +453,29 @@ fn validate_challenge(ca: &Ca, ai: usize, ci: usize, thumb: &str) -> (bool, Valu
             // a responder that was just started may still be binding: retry briefly
             let mut res = json!(null);
             let mut target = String::new();
+            // another validation perspective may hold an idle connection while this one validates
+            let idle_first = alpn.get("idle_first").and_then(|v| v.as_bool()).unwrap_or(false);
+            let mut _idle_tcp = None;
+            let mut _idle_unix = None;
+            if idle_first {
+                for _ in 0..40 {
+                    if kind == "unix" {
+                        let p = alpn.get("path").and_then(|v| v.as_str()).unwrap_or("").replace("{identifier}", ident);
+                        if let Ok(s) = std::os::unix::net::UnixStream::connect(&p) { _idle_unix = Some(s); break; }
+                    } else {
+                        let host = alpn.get("host").and_then(|v| v.as_str()).unwrap_or("{identifier}").replace("{identifier}", ident);
+                        let port = alpn.get("port").and_then(|v| v.as_u64()).unwrap_or(5001);
+                        if let Ok(s) = TcpStream::connect((host.as_str(), port as u16)) { _idle_tcp = Some(s); break; }
+                    }
+                    std::thread::sleep(std::time::Duration::from_millis(50));
+                }
+            }
             for _ in 0..40 {
                 res = if kind == "unix" {
                     let p = alpn.get("path").and_then(|v| v.as_str()).unwrap_or("").replace("{identifier}", ident);
                     target = format!("unix:{p}");
                     match std::os::unix::net::UnixStream::connect(&p) {
-                        Ok(s) => tls_probe(s, ident, &protos),
+                        Ok(s) => { let _ = s.set_read_timeout(Some(std::time::Duration::from_secs(5))); tls_probe(s, ident, &protos) }
                         Err(e) => json!({"handshake_ok": false, "connect_err": e.to_string()}),
                     }
                 } else {
@@ -462,7 +483,7 @@ fn validate_challenge(ca: &Ca, ai: usize, ci: usize, thumb: &str) -> (bool, Valu
                     let port = alpn.get("port").and_then(|v| v.as_u64()).unwrap_or(5001);
                     target = format!("{host}:{port}");
                     match TcpStream::connect((host.as_str(), port as u16)) {
-                        Ok(s) => tls_probe(s, ident, &protos),
+                        Ok(s) => { let _ = s.set_read_timeout(Some(std::time::Duration::from_secs(5))); tls_probe(s, ident, &protos) }
                         Err(e) => json!({"handshake_ok": false, "connect_err": e.to_string()}),
                     }
                 };
